@@ -50,9 +50,12 @@ fn scale(t: Tier, c: &mut GenCfg, h: &mut HistCfg) {
 }
 
 /// Concurrent cases (engine e3): program + rounds of reader threads, writer, cancels, faults.
-pub fn make_conc_case(prop: &str, seed: u64, tier: Tier) -> Case {
+pub fn make_conc_case(real_prop: &str, seed: u64, tier: Tier) -> Case {
     use crate::conc::*;
-    let mut r = Rng::new(seed ^ crate::rng::hash_str(7, prop));
+    let mut r = Rng::new(seed ^ crate::rng::hash_str(7, real_prop));
+    // C19 (waiting protocol) rides on every scenario family: readers, cross-thread cycles,
+    // writer cancellation, token cancellation, panics with waiters
+    let prop: &str = if real_prop == "C19" { *r.pick(&["C16", "C18", "C18", "C20", "C21", "C22"]) } else { real_prop };
     let thorough = tier == Tier::Thorough;
     let mut knobs = Knobs::default();
     let mut class;
@@ -217,7 +220,10 @@ pub fn make_conc_case(prop: &str, seed: u64, tier: Tier) -> Case {
         // single-handle check; the concurrent class concentrates on waiting threads
         fault_mask = (1 << Cb::BodyOp as u32) | (1 << Cb::ValEq as u32) | (1 << Cb::CycleFn as u32) | (1 << Cb::CycleInitial as u32);
     }
-    Case { property: prop.to_string(), engine: "e3".into(), class, seed, knobs, prog, world: (&world).into(), hist: vec![], panic_at, fault_mask, conc: Some(conc), expect: vec![] }
+    if real_prop == "C19" {
+        class = format!("{prop}:{class}");
+    }
+    Case { property: real_prop.to_string(), engine: "e3".into(), class, seed, knobs, prog, world: (&world).into(), hist: vec![], panic_at, fault_mask, conc: Some(conc), expect: vec![] }
 }
 
 pub fn make_case(prop: &str, seed: u64, tier: Tier) -> Case {
